@@ -50,7 +50,7 @@ type Conn struct {
 	DownErr     error // strict parse error on bytes the broker sent
 	DownErrAt   int64
 	Recvd       []*Recv
-	FirstBytes  []byte // the first bytes the client sent (up to 512)
+	FirstBytes  []byte  // the first bytes the client sent (up to 512)
 	UpVT        []int64 // virtual time of every chunk the client put on the wire
 	rdS         refmqtt.Stream
 	Dead        bool   // reader observed the end of the connection
